@@ -828,6 +828,9 @@ class Program:
             raise AnalysisError('opts._options is not a literal list')
         out = {}
         for e in node.elts:
+            if isinstance(e, ast.Name) and isinstance(
+                    m.assigns.get(e.id), ast.Call):
+                e = m.assigns[e.id]         # an option object kept by name
             if not isinstance(e, ast.Call):
                 continue
             ty = self.resolve(m, e.func)
